@@ -305,7 +305,11 @@ class Parameter(_SupportsArray):
         value = f"{parameter.value:.2e}"
         if parameter.vary:
             if parameter.standard_error is not np.nan:
-                t_value = pretty_format_numerical(parameter.value / parameter.standard_error)
+                with np.errstate(divide="ignore", invalid="ignore"):
+                    # A standard error of 0 needs to give inf/nan for python floats as well
+                    t_value = pretty_format_numerical(
+                        np.divide(parameter.value, parameter.standard_error)
+                    )
                 value += f"±{parameter.standard_error:.2e}, t-value: {t_value}"
 
             if initial_parameters is not None:
